@@ -202,6 +202,16 @@ def main(argv):
                 ck.count("K_agree")
             else:
                 k_bad.append((src, cfg, detail))
+    # the binder function of C09.no_foreign_binders against CPython's view of the real output
+    b_bad = []
+    if b["driver_ok"]:
+        for src, cfg, ok, detail in lower_common.binder_check(ol, pairs):
+            if ok:
+                ck.count("binders_agree")
+            else:
+                b_bad.append((src, cfg, detail))
+    if b_bad:
+        ck.broken.append(f"correspondence K(bnd = names bound by the real output; none foreign): {len(b_bad)} programs differ, first: {b_bad[0][2][:300]} on {b_bad[0][0]!r}")
     if k_bad:
         ck.broken.append(f"correspondence K(lowerFull = convert): {len(k_bad)} programs differ, first: {k_bad[0][2][:300]} on {k_bad[0][0]!r}")
     if "KF-D55" in kfs:
